@@ -610,21 +610,50 @@ Qed.
 Local Notation fm_equal := (fm_equal V veq).
 Local Notation equals := (equals V veq).
 
-Lemma equals_loop_true : forall (es : ents) b,
-  equals_loop V veq es b = Some true <->
-  forall k v, In (k, v) es -> exists o, get b k = Some o /\ veq o v = Some true.
+Lemma equals_loop_true : forall (es : ents) b acc,
+  equals_loop V veq es b acc = Some true <->
+  acc = true /\ forall k v, In (k, v) es -> exists o, get b k = Some o /\ veq o v = Some true.
 Proof.
-  induction es as [|[k v] es IH]; intros b; simpl.
-  - split; [intros _ k v []|reflexivity].
+  induction es as [|[k v] es IH]; intros b acc; simpl.
+  - split; [intros H; inversion H; split; [reflexivity|intros k v []] | intros [H _]; subst; reflexivity].
   - destruct (get b k) as [o|] eqn:G.
-    + destruct (veq o v) as [[|]|] eqn:E.
+    + destruct (veq o v) as [x|] eqn:E.
       * rewrite IH. split.
-        -- intros H k0 v0 [H0|H0]; [inversion H0; subst; exists o; split; assumption|apply H; exact H0].
-        -- intros H k0 v0 H0. apply H. right. exact H0.
-      * split; [discriminate|]. intros H. destruct (H k v (or_introl eq_refl)) as [o' [H1 H2]]. congruence.
-      * split; [discriminate|]. intros H. destruct (H k v (or_introl eq_refl)) as [o' [H1 H2]]. congruence.
-    + split; [discriminate|]. intros H. destruct (H k v (or_introl eq_refl)) as [o' [H1 H2]]. congruence.
+        -- intros [Hacc H]. apply andb_true_iff in Hacc. destruct Hacc as [Ha Hx]. subst. split; [reflexivity|].
+           intros k0 v0 [H0|H0]; [inversion H0; subst; exists o; split; assumption|apply H; exact H0].
+        -- intros [Hacc H]. subst. destruct (H k v (or_introl eq_refl)) as [o' [H1 H2]].
+           assert (x = true) by congruence. subst. split; [reflexivity|].
+           intros k0 v0 H0. apply H. right. exact H0.
+      * split; [discriminate|]. intros [_ H]. destruct (H k v (or_introl eq_refl)) as [o' [H1 H2]]. congruence.
+    + rewrite IH. split; [intros [C _]; discriminate|].
+      intros [_ H]. destruct (H k v (or_introl eq_refl)) as [o' [H1 H2]]. congruence.
 Qed.
+
+(* the outcome is an error exactly when some entry meets an incomparable partner *)
+Lemma equals_loop_err : forall (es : ents) b acc,
+  equals_loop V veq es b acc = None <->
+  exists k v o, In (k, v) es /\ get b k = Some o /\ veq o v = None.
+Proof.
+  induction es as [|[k v] es IH]; intros b acc; simpl.
+  - split; [discriminate|intros [k [v [o [[] _]]]]].
+  - destruct (get b k) as [o|] eqn:G.
+    + destruct (veq o v) as [x|] eqn:E.
+      * rewrite IH. split.
+        -- intros [k0 [v0 [o0 [H0 H1]]]]. exists k0, v0, o0. split; [right; exact H0|exact H1].
+        -- intros [k0 [v0 [o0 [[H0|H0] [H1 H2]]]]].
+           ++ inversion H0; subst. congruence.
+           ++ exists k0, v0, o0. repeat split; assumption.
+      * split; [|reflexivity]. intros _. exists k, v, o. repeat split; [left; reflexivity|exact G|exact E].
+    + rewrite IH. split.
+      * intros [k0 [v0 [o0 [H0 H1]]]]. exists k0, v0, o0. split; [right; exact H0|exact H1].
+      * intros [k0 [v0 [o0 [[H0|H0] [H1 H2]]]]].
+        -- inversion H0; subst. congruence.
+        -- exists k0, v0, o0. repeat split; assumption.
+Qed.
+
+(* the error condition on finite maps *)
+Definition fm_equal_err (A B : ents) : Prop :=
+  length A = length B /\ exists k v o, In (k, v) A /\ assoc k B = Some o /\ veq o v = None.
 
 (* Map.Equals answers true exactly when the finite maps are equal *)
 Lemma equals_true_iff : forall a b, coherent a -> coherent b ->
@@ -633,9 +662,29 @@ Proof.
   intros a b [NDa [SZa GEa]] [NDb [SZb GEb]]. unfold MapLib.equals, MapLib.fm_equal. rewrite SZa, SZb.
   destruct (Nat.eqb (length (iter a)) (length (iter b))) eqn:E.
   - apply Nat.eqb_eq in E. rewrite equals_loop_true. split.
-    + intros H. split; [exact E|]. intros k v Hin. destruct (H k v Hin) as [o [H1 H2]]. exists o. rewrite <- GEb. split; assumption.
-    + intros [_ H] k v Hin. destruct (H k v Hin) as [o [H1 H2]]. exists o. rewrite GEb. split; assumption.
+    + intros [_ H]. split; [exact E|]. intros k v Hin. destruct (H k v Hin) as [o [H1 H2]]. exists o. rewrite <- GEb. split; assumption.
+    + intros [_ H]. split; [reflexivity|]. intros k v Hin. destruct (H k v Hin) as [o [H1 H2]]. exists o. rewrite GEb. split; assumption.
   - apply Nat.eqb_neq in E. split; [discriminate|]. intros [H _]. contradiction.
+Qed.
+
+Lemma equals_err_iff : forall a b, coherent a -> coherent b ->
+  (equals a b = None <-> fm_equal_err (iter a) (iter b)).
+Proof.
+  intros a b [NDa [SZa GEa]] [NDb [SZb GEb]]. unfold MapLib.equals, fm_equal_err. rewrite SZa, SZb.
+  destruct (Nat.eqb (length (iter a)) (length (iter b))) eqn:E.
+  - apply Nat.eqb_eq in E. rewrite equals_loop_err. split.
+    + intros [k [v [o [H0 [H1 H2]]]]]. split; [exact E|]. exists k, v, o. rewrite <- GEb. repeat split; assumption.
+    + intros [_ [k [v [o [H0 [H1 H2]]]]]]. exists k, v, o. rewrite GEb. repeat split; assumption.
+  - apply Nat.eqb_neq in E. split; [discriminate|]. intros [H _]. contradiction.
+Qed.
+
+(* two outcomes with the same "true" and the same "error" condition are the same outcome *)
+Lemma outcome_eq : forall x y : option bool,
+  (x = Some true <-> y = Some true) -> (x = None <-> y = None) -> x = y.
+Proof.
+  intros [[|]|] [[|]|] H1 H2; try reflexivity;
+    try (destruct H1 as [H1a H1b]; first [discriminate (H1a eq_refl) | discriminate (H1b eq_refl)]);
+    try (destruct H2 as [H2a H2b]; first [discriminate (H2a eq_refl) | discriminate (H2b eq_refl)]).
 Qed.
 
 Lemma keys_length : forall l : ents, length (keys l) = length l.
@@ -698,25 +747,65 @@ Qed.
 Lemma fm_equiv_sym : forall A B : ents, fm_equiv V A B -> fm_equiv V B A.
 Proof. intros A B H k. symmetry. apply H. Qed.
 
-(* = does not depend on the representation or the key order of either side, and it is symmetric *)
+Lemma fm_equal_err_equiv_l : forall A A' B : ents, NoDup (keys A) -> NoDup (keys A') -> fm_equiv V A A' ->
+  fm_equal_err A B -> fm_equal_err A' B.
+Proof.
+  intros A A' B ND ND' HE [HL [k [v [o [H0 [H1 H2]]]]]]. split; [rewrite <- (fm_equiv_length A A' ND ND' HE); exact HL|].
+  exists k, v, o. repeat split; try assumption. apply assoc_some_in. rewrite <- (HE k). apply assoc_in_nodup; assumption.
+Qed.
+
+Lemma fm_equal_err_equiv_r : forall A B B' : ents, NoDup (keys B) -> NoDup (keys B') -> fm_equiv V B B' ->
+  fm_equal_err A B -> fm_equal_err A B'.
+Proof.
+  intros A B B' ND ND' HE [HL [k [v [o [H0 [H1 H2]]]]]]. split; [rewrite <- (fm_equiv_length B B' ND ND' HE); exact HL|].
+  exists k, v, o. rewrite <- (HE k). repeat split; assumption.
+Qed.
+
+(* = does not depend on the representation or the key order of either side: the whole outcome
+   (true, false or the error of an incomparable pair) is the same *)
 Theorem equality_representation_independent : forall a a' b b',
   coherent a -> coherent a' -> coherent b -> coherent b' ->
   fm_equiv V (iter a) (iter a') -> fm_equiv V (iter b) (iter b') ->
-  (equals a b = Some true <-> equals a' b' = Some true).
+  equals a b = equals a' b'.
 Proof.
-  intros a a' b b' Ca Ca' Cb Cb' Ea Eb.
-  rewrite (equals_true_iff a b Ca Cb), (equals_true_iff a' b' Ca' Cb').
-  destruct Ca as [NDa _], Ca' as [NDa' _], Cb as [NDb _], Cb' as [NDb' _]. split; intros H.
-  - apply (fm_equal_equiv_r _ (iter b)); try assumption. apply (fm_equal_equiv_l (iter a)); assumption.
-  - apply (fm_equal_equiv_r _ (iter b')); try assumption; [apply fm_equiv_sym; exact Eb|].
-    apply (fm_equal_equiv_l (iter a')); try assumption. apply fm_equiv_sym. exact Ea.
+  intros a a' b b' Ca Ca' Cb Cb' Ea Eb. apply outcome_eq.
+  - rewrite (equals_true_iff a b Ca Cb), (equals_true_iff a' b' Ca' Cb').
+    destruct Ca as [NDa _], Ca' as [NDa' _], Cb as [NDb _], Cb' as [NDb' _]. split; intros H.
+    + apply (fm_equal_equiv_r _ (iter b)); try assumption. apply (fm_equal_equiv_l (iter a)); assumption.
+    + apply (fm_equal_equiv_r _ (iter b')); try assumption; [apply fm_equiv_sym; exact Eb|].
+      apply (fm_equal_equiv_l (iter a')); try assumption. apply fm_equiv_sym. exact Ea.
+  - rewrite (equals_err_iff a b Ca Cb), (equals_err_iff a' b' Ca' Cb').
+    destruct Ca as [NDa _], Ca' as [NDa' _], Cb as [NDb _], Cb' as [NDb' _]. split; intros H.
+    + apply (fm_equal_err_equiv_r _ (iter b)); try assumption. apply (fm_equal_err_equiv_l (iter a)); assumption.
+    + apply (fm_equal_err_equiv_r _ (iter b')); try assumption; [apply fm_equiv_sym; exact Eb|].
+      apply (fm_equal_err_equiv_l (iter a')); try assumption. apply fm_equiv_sym. exact Ea.
 Qed.
 
-Theorem equality_symmetric : (forall x y, veq x y = Some true -> veq y x = Some true) ->
+(* "true" is symmetric as soon as the element comparison's "true" is *)
+Theorem equality_true_symmetric : (forall x y, veq x y = Some true -> veq y x = Some true) ->
   forall a b, coherent a -> coherent b -> equals a b = Some true -> equals b a = Some true.
 Proof.
   intros SYM a b Ca Cb H. apply (equals_true_iff b a Cb Ca). apply (equals_true_iff a b Ca Cb) in H.
   destruct Ca as [NDa _], Cb as [NDb _]. apply fm_equal_sym; assumption.
+Qed.
+
+Lemma fm_equal_err_sym : (forall x y, veq x y = veq y x) ->
+  forall A B : ents, NoDup (keys A) -> NoDup (keys B) -> fm_equal_err A B -> fm_equal_err B A.
+Proof.
+  intros SYM A B NDa NDb [HL [k [v [o [H0 [H1 H2]]]]]]. split; [symmetry; exact HL|].
+  exists k, o, v. split; [apply assoc_some_in; exact H1|]. split; [apply assoc_in_nodup; assumption|].
+  rewrite SYM. exact H2.
+Qed.
+
+(* with a symmetric element comparison the whole outcome - errors included - is symmetric:
+   it does not matter which map is the receiver *)
+Theorem equality_symmetric : (forall x y, veq x y = veq y x) ->
+  forall a b, coherent a -> coherent b -> equals a b = equals b a.
+Proof.
+  intros SYM a b Ca Cb. apply outcome_eq.
+  - split; apply equality_true_symmetric; try assumption; intros x y H; rewrite SYM; exact H.
+  - rewrite (equals_err_iff a b Ca Cb), (equals_err_iff b a Cb Ca).
+    destruct Ca as [NDa _], Cb as [NDb _]. split; apply fm_equal_err_sym; assumption.
 Qed.
 
 (* when the element comparison decides identity, = is true exactly for the same finite map *)
